@@ -26,7 +26,7 @@ public:
 	bool seekable = true;
 	long failAt = -1;          // -1: never; else at this absolute offset underflow fails
 	bool failThrows = false;   // throw std::ios_base::failure instead of returning EOF
-	size_t refills = 0, seeks = 0, failedSeeks = 0;
+	size_t refills = 0, seeks = 0, failedSeeks = 0, failedBackwardSeeks = 0;   // failedBackwardSeeks: refused requests for a position before the current one
 
 	explicit ChunkedInBuf(std::string data) : mData(std::move(data)) { setg(buf(), buf(), buf()); }
 	size_t exposedEnd() const { return static_cast<size_t>(egptr() - const_cast<ChunkedInBuf*>(this)->buf()); }
@@ -50,7 +50,7 @@ protected:
 	pos_type seekoff(off_type off, std::ios_base::seekdir dir, std::ios_base::openmode which) override {
 		if (!(which & std::ios_base::in)) return pos_type(off_type(-1));
 		off_type cur = gptr() - buf(), base = dir == std::ios_base::beg ? 0 : dir == std::ios_base::cur ? cur : static_cast<off_type>(mData.size());
-		if (!seekable) { if (!(dir == std::ios_base::cur && off == 0)) ++failedSeeks; return pos_type(off_type(-1)); }   // like a pipe: tellg fails too
+		if (!seekable) { if (!(dir == std::ios_base::cur && off == 0)) { ++failedSeeks; if (base + off < cur) ++failedBackwardSeeks; } return pos_type(off_type(-1)); }   // like a pipe: tellg fails too
 		if (dir == std::ios_base::cur && off == 0) return pos_type(cur);
 		off_type np = base + off;
 		if (np < 0 || np > static_cast<off_type>(mData.size())) return pos_type(off_type(-1));
